@@ -214,3 +214,32 @@ def moved_apart(ctx):
     for op, want in ((a, intended_a), (b, intended_b)):
         blk = mesh.blocks[[a, b].index(op)]
         ctx.prove("vertex-sits-at-its-corner", all(np.allclose(np.asarray(blk.vertices[c].position, dtype=float), want[c], atol=TOL) for c in range(8)))
+
+
+@proof("C05", "history/merged-pair-declared-after-a-first-assembly", cases=["two-pairs-meeting-at-an-edge", "two-slave-patches-on-one-block-pair", "chain-of-merged-pairs", "stack-merged-interface"],
+       level="S", samples=1,
+       functions=["classy_blocks.lists.patch_list:PatchList.slave_patches", "classy_blocks.lists.patch_list:PatchList.merge", "classy_blocks.mesh:Mesh._add_vertices",
+                  "classy_blocks.mesh:Mesh.clear"],
+       note="the mesh is assembled with only the first merged pair declared (none for a layout with one pair), then the remaining pair is "
+            "declared, the mesh cleared and assembled again: connectivity is that of the pairs declared now (round 5: slave names remembered "
+            "from the first assembly)")
+def merged_pair_declared_later(ctx):
+    cells, patches, merges = LAYOUTS[ctx.case]
+    ops = [Box(np.array(c, dtype=float), np.array(c, dtype=float) + 1.0) for c in cells]
+    for bi, d in patches.items():
+        for side, name in d.items():
+            ops[bi].set_patch(side, name)
+    mesh = Mesh()
+    early, late = merges[:-1], merges[-1:]
+    for m_, s_ in early:
+        mesh.merge_patches(m_, s_)
+    for op in ops:
+        mesh.add(op)
+    mesh.assemble(skip_edges=True)
+    check_connectivity(ctx, mesh, ops, {s_ for _, s_ in early}, TOL)
+    for m_, s_ in late:
+        mesh.merge_patches(m_, s_)
+    mesh.clear()
+    mesh.assemble(skip_edges=True)
+    ctx.prove("after-the-later-declaration/as-many-blocks", len(mesh.blocks) == len(ops))
+    check_connectivity(ctx, mesh, ops, {s_ for _, s_ in merges}, TOL)
